@@ -2124,3 +2124,38 @@ def rule_sweepstop(text):
             apps.append(_app(rname, text, mm.start(), mm.end(), new, why))
             text = text[:mm.start()] + new + text[mm.end():]
     return text, apps
+
+
+def rule_wbshutdown(text):
+    """WriteBuffer::{initiate_shutdown, finish_shutdown} (write_buffer.rs)"""
+    apps = []
+    ws = r"\s*"
+    table = [
+        (r"self" + ws + r"\." + ws + r"periodic_flush_handle" + ws + r"\." + ws + r"lock\(\)" + ws + r"\." + ws + r"take\(\)", "take_slot(&mut self.periodic_flush_handle)", "R-take", "verified helper: Option::take on the slot behind its mutex"),
+        (r"std::mem::take\(&mut" + ws + r"\*self" + ws + r"\." + ws + r"worker_handles" + ws + r"\." + ws + r"lock\(\)\)", "take_handles(&mut self.worker_handles)", "R-take", "shim: mem::take on the handle list behind its mutex"),
+        (r"let" + ws + r"_" + ws + r"=" + ws + r"(\w+)" + ws + r"\." + ws + r"join\(\)" + ws + r";", r"let _ = join_thread(\1, &self.shutdown);", "R-join",
+         "shim: JoinHandle::join; its precondition (shutdown flag set) is what makes the join return"),
+    ]
+    for pat, rep, rname, why in table:
+        n = 0
+        while n < 8:
+            n += 1
+            mm = re.search(pat, text)
+            if not mm:
+                break
+            new = mm.expand(rep)
+            if new == text[mm.start():mm.end()]:
+                break
+            apps.append(_app(rname, text, mm.start(), mm.end(), new, why))
+            text = text[:mm.start()] + new + text[mm.end():]
+    return text, apps
+
+
+def rule_sig_wbshutdown(text):
+    apps = []
+    mm = re.search(r"\(\s*&self\b", text)
+    if mm:
+        new = mm.group(0).replace("&self", "&mut self")
+        apps.append(_app("R-sigmut", text, mm.start(), mm.end(), new, "interior mutability made explicit: the flag and the handle lists are fields of `self`"))
+        text = text[:mm.start()] + new + text[mm.end():]
+    return text, apps
